@@ -179,6 +179,9 @@ def domains():
         "params_initial": [par("hertz_para"), par("hertz_para", E__value=4e3),
                            par("hertz_para", E__vary=False), par("hertz_para", E__min=1.0),
                            par("hertz_para", E__max=1e6), par("hertz_para", R__value=5e-6),
+                           # a limit of exactly zero is a limit (the default lower limit of E is 0)
+                           par("hertz_para", E__min=-np.inf), par("hertz_para", contact_point__max=0.0),
+                           par("hertz_para", contact_point__min=0.0), par("hertz_para", baseline__max=0.0),
                            par("hertz_para", baseline__expr="E*1e-12"),
                            par("hertz_para", contact_point__value=1e-7),
                            par("hertz_para", nu__value=0.4)],
